@@ -508,7 +508,7 @@ class Classification:
                 isomorph_n *= n
                 return (f"{isomorph_core_algebra}" if isomorph_n == 1
                        else f"{isomorph_n}*{isomorph_core_algebra}")
-            return "None"
+            return None
         return self.get_isomorphisms()[algebra]
 
     def get_dla_dim(self) -> int:
